@@ -33,6 +33,7 @@ def run_impl(case, rng_seed):
     submitted = []
     completed = set()
     rlog = []
+    events = []                    # ("submit", i) / ("stop", cause) in real order
     fixed = list(case.get("sched") or [])
     replaying = case.get("sched") is not None
 
@@ -51,6 +52,7 @@ def run_impl(case, rng_seed):
             self.cb = cb
             futures[self.i] = self
             submitted.append(self.i)
+            events.append(("submit", self.i))
             decide("window")
 
     def inflight():
@@ -60,6 +62,10 @@ def run_impl(case, rng_seed):
         if j in futures and j not in completed and futures[j].cb is not None:
             completed.add(j)
             futures[j].cb(futures[j])
+            o = outs[j]
+            if (o[0] == "err" and case["fail_fast"]) or \
+                    (o[0] == "val" and case["reducer"] and o[2]):
+                events.append(("stop", j))
 
     def decide(kind):
         fl = inflight()
@@ -101,6 +107,7 @@ def run_impl(case, rng_seed):
             fire(j)
         if exp:
             state["expired"] = True
+            events.append(("stop", "clock"))
 
     class FakeExecutor:
         def __enter__(self):
@@ -152,6 +159,7 @@ def run_impl(case, rng_seed):
 
     if case["expired0"]:
         state["expired"] = True
+        events.append(("stop", "clock"))
     real_wait, real_time = concurrent.futures.wait, par.time
     concurrent.futures.wait = fake_wait
     par.time = FakeTime
@@ -174,7 +182,7 @@ def run_impl(case, rng_seed):
         par.time = real_time
     return {"submitted": submitted, "rlog": rlog, "final": final,
             "sched": sched, "maxfly": state["maxfly"],
-            "completed": sorted(completed)}
+            "completed": sorted(completed), "events": events}
 
 
 def run_serial_impl(case):
@@ -297,6 +305,13 @@ def oracle(case, r):
     bad = []
     if r["maxfly"] > W:
         bad.append("more than num_workers tasks in flight: %d > %d" % (r["maxfly"], W))
+    ev = r.get("events") or []
+    stops = [k for k, e in enumerate(ev) if e[0] == "stop"]
+    if stops:
+        late = sum(1 for e in ev[stops[0]:] if e[0] == "submit")
+        if late >= W:
+            bad.append("submissions after a stop signal: %d tasks were still submitted after %r "
+                       "(must be fewer than num_workers = %d)" % (late, ev[stops[0]], W))
     sub = r["submitted"]
     if sub != list(range(len(sub))):
         bad.append("submission order is not 0..k-1: %r" % sub)
